@@ -3,7 +3,7 @@ from __future__ import annotations
 
 from ..driver import Knockout, sub_nth, sub_once
 from ..report import Ctx
-from ..rules import orbits, tables
+from ..rules import orbits, shapes, tables
 from ..rules.orbits import RELABEL
 
 EXPLANATION = (
@@ -21,6 +21,7 @@ def run(ctx: Ctx) -> None:
     orbits.rule_orbit_provenance(ctx, ["lc_orbit_finder", "rgs_orbit_finder", "linear_partial_orbit", "depth_first_orbit"])
     orbits.rule_automorph(ctx)
     orbits.rule_iso_finder_bounds(ctx)
+    shapes.rule_relabel_form(ctx)
     tables.rule_api_numpy(ctx, [RELABEL], advisory_rels=(["graphiq/noise/time_depend_noise.py", "graphiq/io.py",
                                                          "graphiq/data_collection/correlation_module.py"]
                                                         if ctx.tier == "thorough" else []))
@@ -29,6 +30,8 @@ def run(ctx: Ctx) -> None:
 
 
 KNOCKOUTS = [
+    Knockout("relabel-inverse", RELABEL, sub_once("    permuted_adj_matrix = p_matrix.T @ adj_matrix @ p_matrix", "    permuted_adj_matrix = p_matrix @ adj_matrix @ p_matrix.T"), "relabel.form", "relabel"),
+    Knockout("perm2matrix-transposed", RELABEL, sub_once("        permute_matrix[i, label] = 1", "        permute_matrix[label, i] = 1"), "relabel.form", "_perm2matrix"),
     Knockout("G10-foreign-graph", RELABEL, sub_once("        orbit_list.append(g_lc_2)", "        orbit_list.append(nx.complement(g_lc))"),
              "flow.provenance-closure", "rgs_orbit_finder"),
     Knockout("G10-linear-wrong-step", RELABEL,
